@@ -31,56 +31,65 @@ theorem map_ne_fuel {α β : Type} {r : Res α} {f : α → β} (h : r ≠ .fuel
 theorem map_eq_fuel {α β : Type} {r : Res α} {f : α → β} : r.map f = .fuel ↔ r = .fuel := by
   cases r <;> simp [Res.map, Res.bind]
 
-/-- `Shr rest r`: `r` is not out of fuel, and a success left strictly less input than `rest` -/
-def Shr {α : Type} (rest : Bytes) (r : Res α) : Prop :=
-  r ≠ .fuel ∧ ∀ a r' p', r = .ok a r' p' → r'.length < rest.length
+/-- `Shr rest pos r`: `r` is not out of fuel, and a success left strictly less input than `rest` and
+    advanced the position by what it consumed -/
+def Shr {α : Type} (rest : Bytes) (pos : Nat) (r : Res α) : Prop :=
+  r ≠ .fuel ∧ ∀ a r' p', r = .ok a r' p' → r'.length < rest.length ∧ p' + r'.length = pos + rest.length
 
 /-- … left at most `rest` -/
-def ShrLe {α : Type} (rest : Bytes) (r : Res α) : Prop :=
-  r ≠ .fuel ∧ ∀ a r' p', r = .ok a r' p' → r'.length ≤ rest.length
+def ShrLe {α : Type} (rest : Bytes) (pos : Nat) (r : Res α) : Prop :=
+  r ≠ .fuel ∧ ∀ a r' p', r = .ok a r' p' → r'.length ≤ rest.length ∧ p' + r'.length = pos + rest.length
 
-theorem Shr.le {α : Type} {rest : Bytes} {r : Res α} (h : Shr rest r) : ShrLe rest r :=
-  ⟨h.1, fun a r' p' e => Nat.le_of_lt (h.2 a r' p' e)⟩
+theorem Shr.le {α : Type} {rest : Bytes} {pos : Nat} {r : Res α} (h : Shr rest pos r) : ShrLe rest pos r :=
+  ⟨h.1, fun a r' p' e => ⟨Nat.le_of_lt (h.2 a r' p' e).1, (h.2 a r' p' e).2⟩⟩
 
-theorem Shr.map {α β : Type} {rest : Bytes} {r : Res α} (f : α → β) (h : Shr rest r) : Shr rest (r.map f) :=
+theorem Shr.map {α β : Type} {rest : Bytes} {pos : Nat} {r : Res α} (f : α → β) (h : Shr rest pos r) : Shr rest pos (r.map f) :=
   ⟨map_ne_fuel h.1, fun _ _ _ e => by obtain ⟨a, ha, _⟩ := map_ok e; exact h.2 _ _ _ ha⟩
 
-theorem ShrLe.map {α β : Type} {rest : Bytes} {r : Res α} (f : α → β) (h : ShrLe rest r) : ShrLe rest (r.map f) :=
+theorem ShrLe.map {α β : Type} {rest : Bytes} {pos : Nat} {r : Res α} (f : α → β) (h : ShrLe rest pos r) : ShrLe rest pos (r.map f) :=
   ⟨map_ne_fuel h.1, fun _ _ _ e => by obtain ⟨a, ha, _⟩ := map_ok e; exact h.2 _ _ _ ha⟩
 
 /-- sequencing: a shrinking step followed by a non-growing one shrinks -/
-theorem Shr.bind_le {α β : Type} {rest : Bytes} {r : Res α} {k : α → Bytes → Nat → Res β}
-    (h1 : Shr rest r) (h2 : ∀ a r1 p1, r = .ok a r1 p1 → ShrLe r1 (k a r1 p1)) : Shr rest (r.bind k) := by
+theorem Shr.bind_le {α β : Type} {rest : Bytes} {pos : Nat} {r : Res α} {k : α → Bytes → Nat → Res β}
+    (h1 : Shr rest pos r) (h2 : ∀ a r1 p1, r = .ok a r1 p1 → ShrLe r1 p1 (k a r1 p1)) : Shr rest pos (r.bind k) := by
   refine ⟨bind_ne_fuel h1.1 fun a r1 p1 e => (h2 a r1 p1 e).1, fun b r' p' e => ?_⟩
   obtain ⟨a, r1, p1, ha, hk⟩ := bind_ok e
   have := h1.2 _ _ _ ha
   have := (h2 _ _ _ ha).2 _ _ _ hk
   omega
 
-theorem ShrLe.bind_shr {α β : Type} {rest : Bytes} {r : Res α} {k : α → Bytes → Nat → Res β}
-    (h1 : ShrLe rest r) (h2 : ∀ a r1 p1, r = .ok a r1 p1 → Shr r1 (k a r1 p1)) : Shr rest (r.bind k) := by
+theorem ShrLe.bind_shr {α β : Type} {rest : Bytes} {pos : Nat} {r : Res α} {k : α → Bytes → Nat → Res β}
+    (h1 : ShrLe rest pos r) (h2 : ∀ a r1 p1, r = .ok a r1 p1 → Shr r1 p1 (k a r1 p1)) : Shr rest pos (r.bind k) := by
   refine ⟨bind_ne_fuel h1.1 fun a r1 p1 e => (h2 a r1 p1 e).1, fun b r' p' e => ?_⟩
   obtain ⟨a, r1, p1, ha, hk⟩ := bind_ok e
   have := h1.2 _ _ _ ha
   have := (h2 _ _ _ ha).2 _ _ _ hk
   omega
 
-theorem ShrLe.bind_le {α β : Type} {rest : Bytes} {r : Res α} {k : α → Bytes → Nat → Res β}
-    (h1 : ShrLe rest r) (h2 : ∀ a r1 p1, r = .ok a r1 p1 → ShrLe r1 (k a r1 p1)) : ShrLe rest (r.bind k) := by
+theorem ShrLe.bind_le {α β : Type} {rest : Bytes} {pos : Nat} {r : Res α} {k : α → Bytes → Nat → Res β}
+    (h1 : ShrLe rest pos r) (h2 : ∀ a r1 p1, r = .ok a r1 p1 → ShrLe r1 p1 (k a r1 p1)) : ShrLe rest pos (r.bind k) := by
   refine ⟨bind_ne_fuel h1.1 fun a r1 p1 e => (h2 a r1 p1 e).1, fun b r' p' e => ?_⟩
   obtain ⟨a, r1, p1, ha, hk⟩ := bind_ok e
   have := h1.2 _ _ _ ha
   have := (h2 _ _ _ ha).2 _ _ _ hk
   omega
 
-theorem shr_of_not_ok {α : Type} {rest : Bytes} {r : Res α} (h1 : r ≠ .fuel) (h2 : ∀ a r' p', r ≠ .ok a r' p') :
-    Shr rest r := ⟨h1, fun a r' p' e => absurd e (h2 a r' p')⟩
+theorem shr_of_not_ok {α : Type} {rest : Bytes} {pos : Nat} {r : Res α} (h1 : r ≠ .fuel) (h2 : ∀ a r' p', r ≠ .ok a r' p') :
+    Shr rest pos r := ⟨h1, fun a r' p' e => absurd e (h2 a r' p')⟩
 
-theorem ShrLe.mono {α : Type} {rest rest' : Bytes} {r : Res α} (h : ShrLe rest r) (hl : rest.length ≤ rest'.length) :
-    ShrLe rest' r := ⟨h.1, fun a r' p' e => Nat.le_trans (h.2 a r' p' e) hl⟩
+/-- the same result seen from an earlier state (`rest'` is longer by what lies between the positions) -/
+theorem ShrLe.mono {α : Type} {rest rest' : Bytes} {pos pos' : Nat} {r : Res α} (h : ShrLe rest pos r)
+    (hl : rest.length ≤ rest'.length) (hp : pos + rest.length = pos' + rest'.length) : ShrLe rest' pos' r :=
+  ⟨h.1, fun a r' p' e => by have := h.2 a r' p' e; omega⟩
 
-theorem Shr.mono {α : Type} {rest rest' : Bytes} {r : Res α} (h : Shr rest r) (hl : rest.length ≤ rest'.length) :
-    Shr rest' r := ⟨h.1, fun a r' p' e => Nat.lt_of_lt_of_le (h.2 a r' p' e) hl⟩
+theorem Shr.mono {α : Type} {rest rest' : Bytes} {pos pos' : Nat} {r : Res α} (h : Shr rest pos r)
+    (hl : rest.length ≤ rest'.length) (hp : pos + rest.length = pos' + rest'.length) : Shr rest' pos' r :=
+  ⟨h.1, fun a r' p' e => by have := h.2 a r' p' e; omega⟩
+
+/-- a non-growing result after at least one consumed byte -/
+theorem ShrLe.step {α : Type} {rest rest' : Bytes} {pos pos' : Nat} {r : Res α} (h : ShrLe rest pos r)
+    (hl : rest.length < rest'.length) (hp : pos + rest.length = pos' + rest'.length) : Shr rest' pos' r :=
+  ⟨h.1, fun a r' p' e => by have := h.2 a r' p' e; omega⟩
 
 /-! ## whitespace -/
 
@@ -207,7 +216,7 @@ theorem runPfx_gt (menv : Machine.Env) (flt : Bool) (t : Nat) (s : St) (hs : ∀
 
 /-- a value read by the machine from a start state consumed at least one byte -/
 theorem machine_shr (menv : Machine.Env) (flt : Bool) (t : Nat) (s : St) (hs : Startable s) (rest : Bytes) (pos : Nat) :
-    Shr rest (machine menv flt t s rest pos) := by
+    Shr rest pos (machine menv flt t s rest pos) := by
   unfold machine
   constructor
   · split <;> simp
@@ -216,28 +225,14 @@ theorem machine_shr (menv : Machine.Env) (flt : Bool) (t : Nat) (s : St) (hs : S
     · rename_i v e he
       simp at h
       obtain ⟨_, rfl, rfl⟩ := h
+      have h2 := runPfx_le _ _ _ _ _ _ _ _ he
       cases rest with
       | nil => exact absurd he (runPfx_nil_not_ok _ _ _ _ hs _ _ _)
       | cons b bs =>
         have h1 := runPfx_gt _ _ _ _ (startable_not_num hs) _ _ _ _ _ he
-        simp only [List.length_drop, List.length_cons]
+        simp only [List.length_drop, List.length_cons] at *
         omega
     · simp at h
     · simp at h
-
-theorem machine_pos (menv : Machine.Env) (flt : Bool) (t : Nat) (s : St) (rest : Bytes) (pos : Nat) (v : JV)
-    (r' : Bytes) (p' : Nat) (h : machine menv flt t s rest pos = .ok v r' p') :
-    p' + r'.length = pos + rest.length := by
-  unfold machine at h
-  split at h
-  · rename_i v e he
-    simp at h
-    obtain ⟨_, rfl, rfl⟩ := h
-    have h1 := runPfx_ge _ _ _ _ _ _ _ _ he
-    have h2 := runPfx_le _ _ _ _ _ _ _ _ he
-    simp only [List.length_drop]
-    omega
-  · simp at h
-  · simp at h
 
 end SJ.Proofs.Typed
